@@ -20,6 +20,17 @@ import PromModel.Tsdb.Intervals
     nothing → no chunk, else `(first t, last t, survivors)`.
     There is no "chunk outside of compacted range" error in this version of the code: trimming is done
     only through those two intervals.
+    This single-chunk re-encode (`populateCurrForSingleChunk`) appends with `appendOnly = true`: a native
+    histogram the appender cannot take into the same chunk (`Merge.histNewChunk`) would be an ERROR, not a
+    cut.  The survivors are a sub-sequence of ONE valid chunk (counts non-decreasing, one schema, stale
+    markers only as a suffix), for which `histNewChunk` is false on every adjacent pair, so the model
+    keeps the single `Chunk.ofSamples`.
+  * re-encoding of OVERLAPPING chunks of several blocks goes through C19's `compactAll` →
+    `Merge.encodeChunks` = `seriesToChunkEncoder`, which DOES cut: on a change of sample type, after 120
+    samples, and when the (float-)histogram appender hands back a new chunk (`Merge.histNewChunk`: counter
+    reset, used bucket gone, schema change, stale → live, gauge ↔ counter); the new chunk's `mint` is that
+    sample's timestamp (`Prom.C19.reencode_chunk_meta_matches_samples`).  `index.Writer.AddSeries`
+    (`chunksAccepted`) refuses the series otherwise.
   * `populate` — `PopulateBlock`: one `NewBlockChunkSeriesSet(… meta.MinTime, meta.MaxTime-1, false)` per
     block, `set = sets[0]` for one block, else `NewMergeChunkSeriesSet(sets, 0, mergeFunc)` (C19's `MSet`
     over Go's `container/heap`); a label set present in one block only by-passes `mergeFunc`
